@@ -6,6 +6,7 @@ import (
 	"fmt"
 	"strings"
 	"sync/atomic"
+	"unsafe"
 )
 
 // VerifMapDump returns: table length, counter sum, growths, shrinks, the canonical layout of the chain of
@@ -124,3 +125,21 @@ func (m *MapOf[K, V]) VerifDump(key K, want bool) (tlen int, size int64, g, s in
 	}
 	return
 }
+
+// VerifShrinkTo replaces the (empty) initial table by one with n root buckets and makes n the minimal
+// table length, so that grows and shrinks happen within a handful of operations.
+func (m *Map) VerifShrinkTo(n int) {
+	t := newMapTable(n)
+	m.minTableLen = n
+	atomic.StorePointer(&m.table, unsafe.Pointer(t))
+}
+
+func (m *MapOf[K, V]) VerifShrinkTo(n int) {
+	t := newMapOfTable[K, V](n)
+	m.minTableLen = n
+	atomic.StorePointer(&m.table, unsafe.Pointer(t))
+}
+
+// VerifResizing reports the resize-in-progress flag.
+func (m *Map) VerifResizing() bool        { return atomic.LoadInt64(&m.resizing) == 1 }
+func (m *MapOf[K, V]) VerifResizing() bool { return atomic.LoadInt64(&m.resizing) == 1 }
